@@ -421,6 +421,19 @@ def run(tier, seed, replay=None):
                     xreqs.append({"op": "paragraph", "gs": gs, "cur": t["cur"]["value"], "excl": t["cur"]["exclusive"], "fwd": mm.group(2) == "Forward",
                                   "count": int(mm.group(1)), "has_verb": t["verb"] is not None})
                     xmeta.append((c, t, "paragraph", None))
+                mm = re.search(r"motion=Some\(MotionCmd\((\d+), TextObj\(WholeParagraph\((Inside|Around)\)\)\)\) flags=", t["cmd"])
+                if mm and t["verb"] is not None and not (t["sel_mode"] and t["sel_range"]):
+                    plines, pl = [], []
+                    for g in gs:
+                        pl.append(g)
+                        if g == "\n":
+                            plines.append(pl)
+                            pl = []
+                    if pl or not plines:
+                        plines.append(pl)
+                    xreqs.append({"op": "para_obj", "blank": [all(is_ws(g) for g in ln) for ln in plines],
+                                  "cur_line": sum(1 for g in gs[:t["cur"]["value"]] if g == "\n"), "count": int(mm.group(1)), "around": mm.group(2) == "Around"})
+                    xmeta.append((c, t, "para_obj", None))
                 mm = re.search(r"motion=Some\(MotionCmd\((\d+), TextObj\(Word\((Normal|Big), (Inside|Around)\)\)\)\) flags=", t["cmd"])
                 if mm:
                     xreqs.append({"op": "textobj_word", "cls": [4 if g == "\n" else cls(g) for g in gs], "cur": t["cur"]["value"], "big": mm.group(2) == "Big", "around": mm.group(3) == "Around"})
